@@ -96,6 +96,24 @@ MUTATIONS = [
     ('Cython/Utility/Buffer.c', "plausible fixes of the three findings (case 'O' in TypeInfoToFormat, `++ts; continue;`, `*ts && *ts != ':'` + error) -> C17 ok", None),
 ]
 
+# fifth round (fresh seed C17e + mutation brainstorming on its mechanism: the "chars don't care about sign" exemption at its two sites, mutants/C17/chunk-*, cmptab-*, keep-chunk-*, keep-cmptab-*):
+# 17 breaking edits, 16 reported and one refused with ANALYSIS-ERROR (w2-chunk-size-only-native: the comparison made dependent on the pack mode); 6 behaviour-preserving rewrites, all silent.  One genuine defect of the unmodified tree met on the way (FINDING_2 of session H2: the exemption in
+# __pyx_typeinfo_cmp answers before dimensionality / extents are compared), rule C17-CMPDIM pending.
+TECHNIQUE += ('; fifth round: the decision region of C17-CHUNK is found by def-use (every branch that reads the size / group of the format item, a flag computed from them or the declared side), '
+              'size relation three-valued; the same decision table for the dtype-equality shortcut __pyx_typeinfo_cmp (C17-CMPTAB)')
+DECIDES += (' Round 5: (CHUNK) the table now covers every statement of the comparison region -- a guard hoisted in front of the comparison, a comparison split in two statements, a flag local, an '
+            'overwritten size -- over declared group x format group x (declared size equal / larger / smaller) x fields; (CMPTAB) __pyx_typeinfo_cmp explored as a whole for every (group of a) x '
+            '(group of b) x (size equal / larger / smaller) x (signedness of plain char): scalar descriptors compare equal only with the same size and the same group or a char on either side.')
+NOT_DECIDED += (' Array members in __pyx_typeinfo_cmp (C17-CMPDIM reports the unmodified tree, pending finding); a verdict of 0 of the shortcut is never a finding (the format check then runs).')
+MUTATIONS += [
+    ('Cython/Utility/Buffer.c', 'seed C17e: the char exemption hoisted in front of the comparison, its `type->size == size` lost', 'C17-CHUNK mismatch-accepted:both / :size'),
+    ('Cython/Utility/Buffer.c', 'ProcessTypeChunk: complex descent hoisted; `group != H &&` guard; split with the exemption in the group half; either_char flag bypass; size overwritten for chars; '
+                                '`<=` in the exemption; early `if (typegroup != H)` around the comparison', 'C17-CHUNK'),
+    ('Cython/Utility/Buffer.c', '__pyx_typeinfo_cmp: exemption returns 1 / `>=` / hoisted early return; outer `||` -> `&&`; size dropped from the outer test; non-char branch returns group equality', 'C17-CMPTAB (C17-CMP)'),
+    ('Cython/Utility/Buffer.c', 'correct flattening into an else-if chain; flag locals either_char / same_size; split into size test + group test; exemption only for char vs char; pure helper', None),
+]
+
+
 KNOWN_ON_CLEAN_TREE = """Three genuine defects are reported on the unchanged tree (all reproduced by compiling and running):
   C17-GRP  Buffer.get_type_information_cname:'O'      __Pyx_TypeInfoToFormat has no case 'O': <object[:n]> void_ptr exports format ''.
   C17-SCAN __pyx_buffmt_parse_array:while(*ts&&*ts!=')'):continue   whitespace inside '(2, 3)' never advances ts: acquisition hangs.
